@@ -45,7 +45,7 @@ def enumerate_macrovectors():
     they cover every assignment"""
     chk = Check("C02")
     sess = Session()
-    vars_ = sess.assign_vars(4, only=SCORING)
+    vars_ = sess.assign_vars(4)
     smod, d, e, items = spec_macrovector(sess, vars_)
     m = sess.m
     feasible = []
@@ -71,7 +71,7 @@ def enumerate_macrovectors():
 def fork(digits):
     chk = Check("C02")
     sess = Session(npat=512)
-    vars_ = sess.assign_vars(4, only=SCORING)
+    vars_ = sess.assign_vars(4)
     smod, d, e, items = spec_macrovector(sess, vars_)
     g = mv_guard(sess, items, digits)
     nsamp = 192 if C.tier() == "quick" else 512
@@ -164,13 +164,13 @@ def main(pid="C02"):
         chk.absorb_dict(r)
     chk.extra["macrovectors_feasible"] = len(feasible)
     chk.input_model = (
-        "M-ASSIGN over the 26 scoring metrics of v4.0 (supplemental metrics are C06's subject); the real "
+        "M-ASSIGN over all 32 metrics of v4.0 (the six supplemental metrics included); the real "
         "constructor runs on the canonical-order structured vector string; case split over the %d feasible "
         "macrovectors (feasibility and exhaustiveness of the split solver-decided); in each fork the fork "
         "condition is asserted in the solver and simulation patterns are sampled from its models." % len(feasible)
     )
-    chk.bounds = ["none on the domain: all assignments of the 26 scoring metrics (all X / override spellings) are covered symbolically"]
-    chk.outside = ["supplemental metrics (C06)", "non-canonical field order (C05)", "strings outside the grammar (C04)"]
+    chk.bounds = ["none on the domain: all assignments of all 32 metrics (all X / override spellings, all supplemental values) are covered symbolically"]
+    chk.outside = ["non-canonical field order (C05)", "strings outside the grammar (C04)"]
     chk.assumptions = [
         "pysymex interprets the Python subset faithfully (validated against the real library on simulation patterns in every fork)",
         "the 270 lookup scores in /verif/spec/cvss4_lookup.py are a pinned copy of the pinned commit's table (no independent derivation exists); everything else in the oracle is typed from the specification, in exact rational arithmetic",
